@@ -1,6 +1,10 @@
 mod gen_clvm;
 mod ops_clvm;
+mod ops_compile;
+mod p_optables;
+mod ops_print;
 mod ops_rich;
+mod p_print;
 mod ops_serde;
 mod p_rich;
 mod p_serde;
@@ -17,6 +21,8 @@ pub fn handle(job: &Value) -> Value {
         "clvm" => ops_clvm::op_clvm(job),
         "serde" => ops_serde::op_serde(job),
         "rich" => ops_rich::op_rich(job),
+        "print" => ops_print::op_print(job),
+        "compile" => ops_compile::op_compile(job),
         "ping" => json!({"pong": true}),
         other => json!({"error": format!("unknown op {other}")}),
     }
@@ -33,6 +39,9 @@ fn main() {
         "worker" => pool::worker_main(handle),
         "replay-clvm" => p_clvm::replay(&rest),
         "drive-clvm" => p_clvm::drive(&rest),
+        "dump-optables" => p_optables::dump(&rest),
+        "replay-print" => p_print::replay(&rest),
+        "drive-print" => p_print::drive(&rest),
         "replay-rich" => p_rich::replay(&rest),
         "drive-rich" => p_rich::drive(&rest),
         "replay-serde" => p_serde::replay(&rest),
